@@ -1298,8 +1298,42 @@ def array_equal(a, b):
     return bool(_k_all((a == b)._d))
 
 
-def allclose(*a, **k):
-    raise ModelGap("allclose")
+def isclose(a, b, rtol=1e-05, atol=1e-08, equal_nan=False):
+    """|a - b| <= atol + rtol * |b| over the reals (rounding of the floating-point evaluation is not modelled)"""
+    xs, xf, kx, xarr = _operand(a)
+    ys, yf, ky, yarr = _operand(b)
+    if kx not in 'bif' or ky not in 'bif':
+        raise TypeError("ufunc 'isfinite' not supported for the input types")
+    rs = _bshape(xs, ys)
+    xb = _broadcast_flat(xs, xf, rs)
+    yb = _broadcast_flat(ys, yf, rs)
+    from fractions import Fraction
+    rt, at = Fraction(rtol), Fraction(atol)
+    out_ = []
+    for p, q in zip(xb, yb):
+        if _isnan_cell(p) or _isnan_cell(q):
+            out_.append(bool(equal_nan and _isnan_cell(p) and _isnan_cell(q)))
+        elif p in (inf, -inf) or q in (inf, -inf):
+            out_.append(bool(p == q))
+        elif isinstance(p, Sym) or isinstance(q, Sym):
+            p_ = _cast_cell(p, 'f') if not isinstance(p, Sym) else p
+            q_ = _cast_cell(q, 'f') if not isinstance(q, Sym) else q
+            if isinstance(p_, SymBool) or isinstance(q_, SymBool):
+                raise ModelGap("isclose on symbolic booleans")
+            d = p_ - q_
+            ad = symx.ite(d >= 0, d, -d) if isinstance(d, Sym) else builtins.abs(d)
+            aq = symx.ite(q_ >= 0, q_, -q_) if isinstance(q_, Sym) else builtins.abs(q_)
+            out_.append(ad <= aq * float(rtol) + float(atol))
+        else:
+            out_.append(bool(builtins.abs(Fraction(p) - Fraction(q)) <= at + rt * builtins.abs(Fraction(q))))
+    if rs == () and not (xarr or yarr):
+        return out_[0]
+    return ndarray(rs, 'b', out_)
+
+
+def allclose(a, b, rtol=1e-05, atol=1e-08, equal_nan=False):
+    r = isclose(a, b, rtol, atol, equal_nan)
+    return bool(all(r))
 
 
 class _IndexExp(object):
